@@ -353,6 +353,94 @@ theorem remote_no_overflow {r : Remote} (h : RInv r) (hm : r.maxOpen ≤ maxStre
   simp only [maxStreamsLimit, implicitStreamLimit] at *
   omega
 
+/-! ## "advertised" read literally: the last value actually sent -/
+
+/-- History state with the ghost "last MAX_STREAMS value the peer was told" (initially the
+`initial_max_streams_*` transport parameter). -/
+structure RH where
+  r : Remote
+  lastSent : Int
+
+def RH.init (cfg : Int) : RH := ⟨Remote.init (maxRemoteStreams cfg), (Remote.init (maxRemoteStreams cfg)).max⟩
+
+def RH.step (h : RH) : ROp → RH
+  | .appendFrame => ⟨h.r.appendFrame.1, (h.r.appendFrame.2).getD h.lastSent⟩
+  | op => ⟨h.r.step op, h.lastSent⟩
+
+def RH.run (h : RH) (ops : List ROp) : RH := ops.foldl RH.step h
+
+/-- The sent value never exceeds `lim.max`, and equals it whenever nothing is waiting to be sent. -/
+theorem rh_inv (cfg : Int) (ops : List ROp) :
+    ((RH.init cfg).run ops).lastSent ≤ ((RH.init cfg).run ops).r.max ∧
+    (((RH.init cfg).run ops).r.sendUnsent = false → ((RH.init cfg).run ops).lastSent = ((RH.init cfg).run ops).r.max) := by
+  suffices H : ∀ (h : RH), (h.lastSent ≤ h.r.max ∧ (h.r.sendUnsent = false → h.lastSent = h.r.max)) →
+      ((h.run ops).lastSent ≤ (h.run ops).r.max ∧ ((h.run ops).r.sendUnsent = false → (h.run ops).lastSent = (h.run ops).r.max)) by
+    exact H _ ⟨Int.le_refl _, fun _ => rfl⟩
+  induction ops with
+  | nil => intro h hh; simpa [RH.run] using hh
+  | cons op rest ih =>
+    intro h hh
+    simp only [RH.run, List.foldl_cons]
+    apply ih
+    obtain ⟨h1, h2⟩ := hh
+    have hm : ∀ q : Remote, h.lastSent ≤ q.max → (q.sendUnsent = false → h.lastSent = q.max) →
+        h.lastSent ≤ q.maybeUpdateMax.max ∧ (q.maybeUpdateMax.sendUnsent = false → h.lastSent = q.maybeUpdateMax.max) := by
+      intro q a b
+      unfold Remote.maybeUpdateMax
+      split
+      · rename_i hs
+        simp [Remote.shouldUpdate] at hs
+        refine ⟨by simp; omega, by simp⟩
+      · exact ⟨a, b⟩
+    cases op with
+    | appendFrame =>
+      simp only [RH.step, Remote.appendFrame]
+      split
+      · simp
+      · rename_i hu
+        simp only [Option.getD_none]
+        exact ⟨h1, fun _ => h2 (by simpa using hu)⟩
+    | «open» n =>
+      simp only [RH.step, Remote.step, Remote.open]
+      split
+      · exact ⟨h1, h2⟩
+      · split
+        · exact hm _ h1 h2
+        · exact ⟨h1, h2⟩
+    | close => exact hm _ h1 h2
+
+/-- The literal statement: a stream is refused iff its number is at or beyond the last limit
+the peer was actually told. -/
+def SentLimitStatement : Prop :=
+  ∀ (cfg : Int) (ops : List ROp) (n : Int),
+    ((((RH.init cfg).run ops).r.open n).2 = false ↔ n ≥ ((RH.init cfg).run ops).lastSent)
+
+/-- **full_false**: `maybeUpdateMax` raises `lim.max` before the MAX_STREAMS frame is written.
+maxOpen = 1: stream 0 opened and closed ⇒ `lim.max = 2` (frame pending); stream 1 is accepted
+although the peer was only ever told 1. -/
+theorem sent_limit_full_false : ¬ SentLimitStatement := by
+  intro h
+  have := h 1 [.open 0, .close] 1
+  revert this
+  decide
+
+/-- **holds_partial**: outside the window `sendUnsent ∧ lastSent ≤ n < lim.max` the literal
+statement holds in every reachable state; inside it the stream is accepted. -/
+theorem sent_limit_holds_partial (cfg : Int) (ops : List ROp) (n : Int)
+    (hex : ¬ (((RH.init cfg).run ops).r.sendUnsent = true ∧ ((RH.init cfg).run ops).lastSent ≤ n ∧
+              n < ((RH.init cfg).run ops).r.max)) :
+    ((((RH.init cfg).run ops).r.open n).2 = false ↔ n ≥ ((RH.init cfg).run ops).lastSent) := by
+  obtain ⟨h1, h2⟩ := rh_inv cfg ops
+  rw [remote_open_error_iff]
+  cases hu : ((RH.init cfg).run ops).r.sendUnsent with
+  | false => have := h2 hu; omega
+  | true =>
+    constructor
+    · intro h; omega
+    · intro h
+      apply Classical.byContradiction; intro hn
+      exact hex ⟨hu, h, by omega⟩
+
 /-! ## T-tie: the regenerated Go code equals the model -/
 
 theorem gen_consts :
